@@ -604,17 +604,24 @@ func (c *cluster) round(seed int64, r int) {
 			defer owg.Done()
 			last := "0.0"
 			k := i
+			lr := mrand.New(mrand.NewSource(seed + int64(i)*31))
 			for ctx.Err() == nil {
 				n := c.nodes[k%len(c.nodes)]
+				// the client also hangs up by itself after a few messages (inside reply batches too) and resumes elsewhere
+				quota, got := lr.Intn(7)+1, 0
+				if lr.Intn(3) == 0 {
+					quota = 1 << 30
+				}
 				c.read(ctx, n, observers[i], last, func(m msg) bool {
 					live[i].mu.Lock()
 					live[i].msgs = append(live[i].msgs, m)
 					live[i].mu.Unlock()
 					last = fmt.Sprintf("%d.%d", m.Id.Id, m.Id.Reply)
-					return false
+					got++
+					return got >= quota
 				})
-				k++ // switch node on any error
-				time.Sleep(200 * time.Millisecond)
+				k++ // switch node after every connection
+				time.Sleep(time.Duration(50+lr.Intn(150)) * time.Millisecond)
 			}
 		}()
 	}
@@ -705,6 +712,10 @@ func (c *cluster) round(seed int64, r int) {
 	}
 	cancel()
 	owg.Wait()
+	if healthy && !sst.acked && sst.got404 > 0 {
+		viol("C05", "session-lost", fmt.Sprintf("round %d: the network is healthy again but answers 404 (%s) for a session whose creation and messages were acknowledged and which was never deleted; faults %v", r, sst.last404, faults), nil)
+		return
+	}
 	if !healthy || !sst.acked {
 		rep.inconclusive(fmt.Sprintf("round %d (faults %v): network healthy=%v, sentinel acknowledged=%v after the faults stopped", r, faults, healthy, sst.acked))
 		return
